@@ -525,4 +525,32 @@ theorem C02_basic_texts (s : Word) : (tokenize cc s).map (·.text) = tokenizeWor
   have : ((fun t : Tok => t.text) ∘ basicToken cc) = id := by funext w; rfl
   rw [this, List.map_id]
 
+/-! ### no blow-up: never more tokens than characters -/
+
+private theorem length_le_flatten : ∀ l : List Word, (∀ t ∈ l, t ≠ []) → l.length ≤ l.flatten.length
+  | [], _ => Nat.le_refl _
+  | t :: ts, h => by
+    have ih := length_le_flatten ts (fun u hu => h u (by simp [hu]))
+    have ht : 1 ≤ t.length := by
+      cases t with
+      | nil => exact absurd rfl (h [] (by simp))
+      | cons _ _ => simp
+    simp only [List.length_cons, List.flatten_cons, List.length_append]
+    omega
+
+/-- the number of tokens never exceeds the number of characters of the text -/
+theorem C02_token_count (s : Word) : (tokenizeWords cc s).length ≤ s.length := by
+  cases s with
+  | nil => unfold tokenizeWords; rw [aux_nil]; simp
+  | cons c cs =>
+    have hflat := ((C02_tokenizer_spec cc c cs _).1 rfl).1
+    have hne : ∀ t ∈ tokenizeWords cc (c :: cs), t ≠ [] := by
+      intro t ht
+      cases C02_token_canonical cc _ t ht with
+      | inl h => intro e; subst e; cases h
+      | inr h => intro e; subst e; cases h
+    have := length_le_flatten _ hne
+    rw [hflat] at this
+    exact this
+
 end T2N.C02.Canon
